@@ -457,6 +457,13 @@ func (c *Client) UnsubscribePredefined(topicID uint16) error {
 }
 
 func (c *Client) publish(topicIDType uint8, topicID uint16, qos uint8, retain bool, payload []byte) error {
+	// MQTT-SN does not support fragmentation: a PUBLISH must fit into one
+	// datagram (it has a 4B header and 5B of fixed fields when its payload is
+	// this long).
+	if len(payload) > pkts1.MaxPacketLen-9 {
+		return fmt.Errorf("payload too long for MQTT-SN: %d B (maximum %d B)",
+			len(payload), pkts1.MaxPacketLen-9)
+	}
 	publish := pkts1.NewPublish(topicID, payload, false, qos, retain, topicIDType)
 	msgID, _ := c.msgID.Next()
 	publish.SetMessageID(msgID)
